@@ -75,7 +75,7 @@ META = {
     "shards": {"quick": 8, "thorough": 16},
     "soft_s": {"quick": 60, "thorough": 800},
     "exhaustive": {"quick": False, "thorough": False},
-    "require": ["placeholders_resolved", "token_seq_compared", "rows_compared", "styles_executed", "fake_statements_judged",
+    "require": ["feature_upsert", "feature_independent_cte", "placeholders_resolved", "token_seq_compared", "rows_compared", "styles_executed", "fake_statements_judged",
                 "cache_hits_judged", "imv_batches_judged", "executemany_sets_judged", "probe_rows_absolute"],
     "assumptions": ["literal_binds rendering places each bind's literal where the bind is in the expression tree",
                     "harness lexer tokenises the SQL SQLAlchemy emits for these statements"],
@@ -220,6 +220,13 @@ def split_values(rig, toks):
 
 
 def mech(what, style, case):
+    if "cte_in_values" in case.features and case.multi is not None and what.split(":")[0] in (
+            "placeholder-without-parameter", "bind-misdelivered-imv", "imv-batch-shape", "imv-extra-batch", "imv-rows-not-sent",
+            "driver-rejected-statement", "bind-misdelivered-executemany") or (
+            "cte_in_values" in case.features and what.startswith("execution-failed-under-style")):
+        # the bind of a SELECT CTE that a scalar subquery inside VALUES refers to is accumulated as a per-row
+        # VALUES bind although the CTE is rendered once, in the WITH clause (genuine defect, all paramstyles)
+        return "imv-cte-bind-accumulated-as-values-bind"
     flags = [f for f in ("executemany", "expanding", "literal_execute", "escaped_name") if f in case.features]
     return "%s:%s:%s%s" % (what, style, case.kind, ("+" + "+".join(flags)) if flags else "")
 
@@ -432,7 +439,8 @@ def run_fake(rig, ctx, case_builder, name, eng, fake, struct_seed, vseed, witnes
     import random
 
     d = eng.dialect
-    caps = {"insert_returning": d.insert_returning, "update_returning": d.update_returning, "delete_returning": d.delete_returning}
+    caps = {"insert_returning": d.insert_returning, "update_returning": d.update_returning, "delete_returning": d.delete_returning,
+            "name": d.name}
     al = g.Alloc(random.Random(vseed))
     b = g.Builder(rig.env, struct_seed, al, caps)
     case = b.build(case_builder)
